@@ -28,13 +28,25 @@ def log(*a):
     print(*a, file=sys.stderr, flush=True)
 
 
+def _big_stack():
+    import resource
+    try:
+        resource.setrlimit(resource.RLIMIT_STACK, (resource.RLIM_INFINITY, resource.RLIM_INFINITY))
+    except Exception:
+        try:
+            soft, hard = resource.getrlimit(resource.RLIMIT_STACK)
+            resource.setrlimit(resource.RLIMIT_STACK, (hard, hard))
+        except Exception:
+            pass
+
+
 def sh(cmd, timeout=3600, cwd=None, env=None, inp=None):
     e = dict(os.environ)
     e.update({'CARGO_NET_OFFLINE': 'true'})
     if env: e.update(env)
     t0 = time.time()
     try:
-        p = subprocess.run(cmd, shell=isinstance(cmd, str), cwd=cwd, env=e, input=inp, capture_output=True, text=True, timeout=timeout)
+        p = subprocess.run(cmd, shell=isinstance(cmd, str), cwd=cwd, env=e, input=inp, capture_output=True, text=True, timeout=timeout, preexec_fn=_big_stack)
         return p.returncode, p.stdout, p.stderr, time.time() - t0
     except subprocess.TimeoutExpired as ex:
         return 124, (ex.stdout or b'').decode('utf-8', 'replace') if isinstance(ex.stdout, bytes) else (ex.stdout or ''), 'TIMEOUT', time.time() - t0
